@@ -1835,6 +1835,8 @@ class Interp:
             ctx.assume(cond, decision=True)
             if len(opts[ci]) > 4:
                 ctx.assume(opts[ci][4])
+            if callable(elem):
+                elem = elem()
             e = Env(env.module, parent=env, func=env.func) if child_env else env
             if child_env:
                 e.local_names = set()
